@@ -1,19 +1,19 @@
-/* C09 O-4: one parser step against its transition contract; O-2: step-simulation lemmas (formatter step -> parser steps). */
+/* C09 O-4 / O-1: one parser step (the body of parse_data_string's loop, cut by Unit.block) against its transition contract. */
 #include "contracts/C03_leaf.h"
 #include "x_Encoding_leaf.c"
 #include "x_c09_prelude.c"
 #include "contracts/C09_step.h"
-int verif_exc; size_t g_vk, g_k, g_w, g_j, g_n; bool g_quoted, g_returned; uint8_t g_vval;
-const char* g_end; const char* g_text; char g_c0, g_c1, g_c2, g_c3;
+int verif_exc; size_t g_vk, g_k, g_w, g_j, g_n; bool g_quoted, g_returned; 
+const char* g_end; char g_c0, g_c1, g_c2, g_c3;
 unsigned g_st_calls; const char* g_st_arg; const char* g_st_end; int g_st_base; int g_st_kind;
 unsigned long long g_num; double g_dbl; float g_flt; unsigned g_load_calls;
+bool g_s_rc, g_s_rmc, g_s_rs, g_s_rus, g_s_high, g_s_be, g_s_me; uint8_t g_s_chr;
 /* the parser state (locals of parse_data_string) */
 const char* in; uint8_t chr;
 bool reading_string, reading_unicode_string, reading_comment, reading_multiline_comment, reading_high_nybble, reading_filename;
 bool big_endian, mask_enabled, allow_files;
-vstr* data; vstr* mask; vstr filename;
+OUT_STR* data; OUT_STR* mask; vstr filename;
 #include "x_pds_step.c"
-#include "x_fds_step.c"
 
 void h_step(void)
 {
